@@ -30,7 +30,8 @@ EXPLANATION = (
     "is checked for agreement between the wrapper it calls, the mode it stores in the runtime state, the "
     "marker types of the value it constructs, and for the store being dominated by the wrapper's Ok edge. "
     "Drop order and guard-page offsets are checked as reachability/ordering facts between call sites. "
-    "MODE must-call: no Ok return of a transition is reachable without the wrapper's Ok edge or an edge on which the "
+    "LOCK-UNDO: every Err return of the lock wrapper after its mlock call lies behind a munlock of the region, no Ok "
+    "return does. WIPE-LEN: the Zeroize impls of the storage containers do not change the storage's length. MODE must-call: no Ok return of a transition is reachable without the wrapper's Ok edge or an edge on which the "
     "recorded mode already is the target mode. EMPTY-GUARD: the wrappers agree on having an Ok return that asks the "
     "OS nothing (the empty-region shortcut). CLONE-COPY/CLONE-LEN: the value returned by every Clone impl of a protected region depends on the contents "
     "of self (a dependency through its length alone does not count), and a fresh region is resized to self.len() "
@@ -44,6 +45,8 @@ def run(ctx, rep):
     rep.explanation = EXPLANATION
     rep.not_decided = NOT_DECIDED
     rep.trust("libc constant values as evaluated by rustc for this target (PROT_*, MADV_*)")
+    rep.trust("Linux mlock(2) marks the range VM_LOCKED before faulting the pages in: a refused mlock (ENOMEM on a PROT_NONE mapping) "
+              "can leave the range locked, munlock(2) clears it (observed with a probe, DESIGN 8.17)")
     rep.assume("cfg(unix, target_os=linux)")
     for cfg in (["full"] if ctx.tier == "quick" else ["full", "nightly", "simd"]):
         check(ctx, rep, cfg)
@@ -236,6 +239,31 @@ def check(ctx, rep, cfg):
                        "has" if v else "has NOT", sum(1 for x in short.values() if x == v) - 1, len(short) - 1) if v == maj else
                    "%s the Ok-without-OS-call shortcut for the empty region that %d of the %d wrappers %s" % (
                        "lacks" if maj else "has", sum(1 for x in short.values() if x == maj), len(short), "have" if maj else "lack"), loc=f.loc())
+    # LOCK-UNDO (pairing on the failure exit): `mlock()` marks the range as locked *before* it faults the pages in; when
+    # that fails (ENOMEM on a PROT_NONE mapping, or part of the way through a range) the mark stays.  The handle
+    # that asked is still typed `Unlocked`, so nothing will ever unlock those pages: the lock wrapper itself has to
+    # undo a refused lock - every Err return after the `mlock` call lies behind a `munlock` of the same region, and
+    # no Ok return does.
+    for k, kinds in sorted(ws.items()):
+        if classify(kinds) != ("lock", "Locked"):
+            continue
+        f = prog._c14_views[k]
+        from ..expr import result_kind_of_ret
+        locks = [c for c, name, flag in kinds if name == "mlock"]
+        unlocks = [c.bb for c, name, flag in kinds if name == "munlock"]
+        for c in locks:
+            after = f.reachable_from_after(c.bb)
+            free_ = f.reachable_from_after(c.bb, cut_blocks=unlocks)
+            errs = [b_ for b_, k_, e_ in result_kind_of_ret(f) if k_ == "err" and b_ in after]
+            oks = [b_ for b_, k_, e_ in result_kind_of_ret(f) if k_ == "ok" and b_ in after]
+            bad = [b_ for b_ in errs if b_ in free_]
+            rep.ob("LOCK-UNDO", "%s|refused lock undone%s" % (f.path, tag), bool(errs) and not bad,
+                   "every Err return after mlock lies behind a munlock of the region (%d site(s))" % len(unlocks) if errs and not bad else
+                   "the Err return at %s is reachable after the mlock call without a munlock: a refused lock can leave the "
+                   "range marked locked (VM_LOCKED is set before the pages are faulted in) and no handle will unlock it" % (f.loc(bad[0]) if bad else "?"),
+                   loc=f.loc(bad[0]) if bad else c.loc())
+            rep.ob("LOCK-UNDO", "%s|granted lock kept%s" % (f.path, tag), bool(oks) and all(b_ in free_ for b_ in oks),
+                   "no Ok return after mlock passes a munlock", loc=c.loc())
     transitions(rep, prog, ws, tag)
     drop_order(rep, prog, ws, tag)
     guard_pages(rep, prog, ws, tag)
@@ -430,7 +458,44 @@ def mode_edges(g, field, variants, variant, when_equal):
     return out
 
 
+LENGTH_CHANGING = ("clear", "truncate", "set_len", "resize", "drain", "pop", "split_off", "shrink_to")
+
+
+def wipe_keeps_length(rep, prog, tag):
+    """WIPE-LEN: Drop wipes the region first and unlocks / un-protects it afterwards - over `as_slice()` of the
+    storage, i.e. over its *current length*.  The wipe therefore must not change that length: the hand-written or
+    derived `Zeroize` impl of every storage container in `protected::` contains no length-changing call on its
+    storage (`clear`, `truncate`, ... - `Vec`'s own `Zeroize` clears, which is why it is not used here), otherwise the
+    unlock that follows covers an empty slice and the pages stay locked after the last handle is gone."""
+    n = 0
+    for imp in prog.impls:
+        if (imp.get("trait") or "") != "zeroize::Zeroize" or not imp["self_ty"]["t"].startswith("protected::Heap"):
+            continue
+        for it in imp["items"]:
+            f0 = prog.by_key.get(it["key"])
+            if it["name"] != "zeroize" or f0 is None or not f0.blocks:
+                continue
+            f = inline(prog, f0)
+            n += 1
+            bad = []
+            for c in f.calls():
+                if f.blocks[c.bb]["cleanup"] or not c.args or c.args[0].get("k") not in ("copy", "move"):
+                    continue
+                a0 = c.args[0]["l"]
+                if cm.view_info(f, a0)[0] != 1:
+                    continue
+                aty = f.locals[a0]["t"]
+                if c.name in LENGTH_CHANGING and "Vec<" in aty:
+                    bad.append("%s at %s" % (c.name, c.loc()))
+                if c.name == "zeroize" and aty.replace("'_ ", "").startswith("&mut std::vec::Vec<"):
+                    bad.append("Vec's own Zeroize (which clears the vector) at %s" % c.loc())
+            rep.ob("WIPE-LEN", imp["self_ty"]["t"].replace("protected::", "") + tag, not bad,
+                   "the wipe leaves the length alone" if not bad else "the wipe changes the length of the storage: %s" % "; ".join(bad), loc=f0.loc())
+    rep.floor("Zeroize impls of the storage containers" + tag, n, 2)
+
+
 def drop_order(rep, prog, ws, tag):
+    wipe_keeps_length(rep, prog, tag)
     drops = [i for i in prog.impls if i.get("trait") == "std::ops::Drop" and i["self_ty"]["t"].startswith("protected::Protected<")]
     rep.ob("DROP", "Drop impl for Protected" + tag, len(drops) == 1, "%d Drop impl(s) for Protected" % len(drops))
     if len(drops) != 1:
